@@ -35,6 +35,7 @@ EXPLANATION = (
     "interpolation, solid angles.")
 EXPLANATION += (' R-C19-4: an attribute that several methods set to different values (the ansatz derivative of the element type) is per-type state: every method that calls a reader of it calls the matching writer on every path before (CFG dominance).')
 EXPLANATION += (' R-C19-5: Meshmapper.process addresses source and target points with the same complete coordinate key list of the mesh; a list cut by the data-dependent `dimensions` property is a violation.')
+EXPLANATION += (" R-C19-6: the gradient module contains no comparison against an absolute numeric tolerance (float literal in a comparison, isclose/allclose): the operators are homogeneous in the length unit. R-C19-7: no frame whose index level order was fixed by the code (reorder_levels with literal names / swaplevel, followed through locals and helper methods) is re-indexed with the caller's index, because pandas aligns MultiIndex tuples by position.")
 ASSUMPTIONS = [
     "pandas .loc/.isin/get_indexer are label based, numpy subscripts and .iloc are positional",
     "np.linalg.inv returns the inverse (non-degenerate element)",
@@ -237,6 +238,148 @@ def run(ctx):
     ctx.attempt(_r3_hotspot)
     ctx.attempt(_r4_shape_state)
     ctx.attempt(_r5_mapping_coords)
+    ctx.attempt(_r6_scale)
+    ctx.attempt(_r7_level_order)
+
+
+MESH_MODS = ("pylife.mesh.gradient", "pylife.mesh.surface", "pylife.mesh.hotspot", "pylife.mesh.meshsignal")
+
+
+def _absolute_tolerances(fn_node):
+    """Comparisons / closeness tests with an absolute numeric tolerance: a float literal (non-integral or written with an
+    exponent) on one side of a comparison, or np.isclose / np.allclose / math.isclose anywhere."""
+    out, seen = [], 0
+
+    def is_tol(e):
+        for n in ast.walk(e):
+            if isinstance(n, ast.Constant) and isinstance(n.value, float) and n.value != 0.0 and \
+                    (n.value != int(n.value) or abs(n.value) >= 1e6):
+                return True
+        return False
+    for n in ast.walk(fn_node):
+        if isinstance(n, ast.Compare):
+            seen += 1
+            sides = [n.left] + list(n.comparators)
+            if any(isinstance(o, (ast.In, ast.NotIn, ast.Is, ast.IsNot)) for o in n.ops):
+                continue
+            if any(is_tol(x) for x in sides):
+                out.append(n)
+        elif isinstance(n, ast.Call) and (call_name(n) or "") in ("np.isclose", "np.allclose", "math.isclose"):
+            seen += 1
+            out.append(n)
+    return seen, out
+
+
+def _r6_scale(ctx):
+    """The gradient operators are homogeneous in the length unit (coordinates scaled by c scale the gradient by 1/c).  Any test of
+    a coordinate-derived quantity against a fixed numeric tolerance (|det J| < 1e-10, isclose) breaks that: elements small in
+    absolute terms are then treated as degenerate.  The gradient module therefore contains only index / count comparisons."""
+    prog = ctx.prog
+    ctx.rule("R-C19-6", floor=3, what="gradient operators contain no comparison against an absolute numeric tolerance")
+    ex = ast.parse("def f(J):\n    if abs(np.linalg.det(J)) < 1e-10:\n        return None\n    if len(J) == 3:\n        return 1\n").body[0]
+    sn, bad = _absolute_tolerances(ex)
+    if sn != 2 or len(bad) != 1:
+        raise AnalysisError("R-C19-6 built-in example not matched")
+    total = 0
+    for key, fi in sorted(prog.functions.items()):
+        if fi.module.name != "pylife.mesh.gradient" or fi.parent is not None:
+            continue
+        sn, bad = _absolute_tolerances(fi.node)
+        total += sn
+        for b in bad:
+            st = b
+            while not isinstance(st, ast.stmt):
+                st = st._parent
+            ctx.violated(fi, st, "%s: %s tests a quantity computed from the node coordinates against a fixed number: the result "
+                         "depends on the length unit of the mesh (elements that are small in absolute terms are treated as "
+                         "degenerate), the gradient of a linear field is no longer its constant gradient" % (fi.name, norm_text(b)),
+                         text="absolute tolerance " + norm_text(b))
+        if sn and not bad:
+            ctx.holds(fi, fi.node, "%s: %d comparison(s), all on indices / counts" % (fi.name, sn))
+    if total < 10:
+        raise AnalysisError("only %d comparisons found in the gradient module" % total)
+
+
+def _fixed_order(prog, fi, e, depth=0):
+    """Does the frame expression carry a level order fixed by the code (swaplevel / reorder_levels with literal names), as
+    opposed to the caller's?  Follows locals and self.method() results."""
+    n = e
+    while True:
+        if isinstance(n, ast.Call) and isinstance(n.func, ast.Attribute):
+            if n.func.attr == "swaplevel":
+                return True
+            if n.func.attr == "reorder_levels" and n.args and isinstance(n.args[0], (ast.List, ast.Tuple)) and \
+                    all(isinstance(x, ast.Constant) for x in n.args[0].elts):
+                return True
+            if is_self_attr(n.func) and depth < 2:
+                callee = prog.lookup_method(fi.cls, n.func.attr) if fi.cls is not None else None
+                if callee is not None:
+                    return any(_fixed_order(prog, callee, r.value, depth + 1) for r in walk_function(callee.node)
+                               if isinstance(r, ast.Return) and r.value is not None)
+                return False
+            n = n.func.value
+        elif isinstance(n, (ast.Subscript, ast.Attribute)):
+            n = n.value
+        elif isinstance(n, ast.Name):
+            defs = [s_ for s_ in walk_function(fi.node) if isinstance(s_, ast.Assign) and
+                    any(isinstance(t, ast.Name) and t.id == n.id for t in s_.targets)]
+            if depth >= 4 or not defs:
+                return False
+            return any(_fixed_order(prog, fi, d.value, depth + 1) for d in defs)
+        else:
+            return False
+
+
+def _caller_index_alignments(prog, fi):
+    """X.reindex(self._obj.index) / X.loc[self._obj.index] / X.reindex_like(self._obj) where X has a code-fixed level order"""
+    out = []
+    for n in ast.walk(fi.node):
+        recv = tgt = None
+        if isinstance(n, ast.Call) and isinstance(n.func, ast.Attribute) and n.func.attr in ("reindex", "reindex_like") and n.args:
+            recv, tgt = n.func.value, n.args[0]
+        elif isinstance(n, ast.Subscript) and isinstance(n.value, ast.Attribute) and n.value.attr == "loc":
+            recv, tgt = n.value.value, n.slice
+        if recv is None:
+            continue
+        t = norm_text(tgt)
+        if t not in ("self._obj.index", "self._obj"):
+            continue
+        if isinstance(recv, ast.Call) and isinstance(recv.func, ast.Attribute) and recv.func.attr == "reorder_levels" and recv.args \
+                and norm_text(recv.args[0]) in ("self._obj.index.names", "list(self._obj.index.names)"):
+            continue
+        if _fixed_order(prog, fi, recv):
+            out.append(n)
+    return out
+
+
+def _r7_level_order(ctx):
+    """Results are handed back under the caller's index.  pandas aligns MultiIndex tuples by position, not by level name, so
+    re-indexing a frame whose level order was fixed by the code (reorder_levels / swaplevel) with the caller's index is right for
+    one level order of the caller's mesh only."""
+    prog = ctx.prog
+    ctx.rule("R-C19-7", floor=1, what="no frame with a code-fixed level order is re-indexed with the caller's index")
+    src = ("class S:\n    def _h(self):\n        return self._obj.reorder_levels(['element_id', 'node_id'])\n"
+           "    def f(self):\n        r = self._h()\n        return r['a'].swaplevel().reindex(self._obj.index)\n"
+           "    def g(self):\n        r = self._h()\n        return r['a'].reorder_levels(self._obj.index.names).reindex(self._obj.index)\n")
+    from .c18 import _mini_program
+    p2 = _mini_program(src)
+    if len(_caller_index_alignments(p2, p2.functions["ex:S.f"])) != 1 or _caller_index_alignments(p2, p2.functions["ex:S.g"]):
+        raise AnalysisError("R-C19-7 built-in example not matched")
+    n = 0
+    for key, fi in sorted(prog.functions.items()):
+        if fi.module.name not in MESH_MODS or fi.parent is not None or fi.cls is None:
+            continue
+        n += 1
+        for b in _caller_index_alignments(prog, fi):
+            st = b
+            while not isinstance(st, ast.stmt):
+                st = st._parent
+            ctx.violated(fi, st, "%s: %s re-indexes a frame whose level order was fixed by the code with the caller's index; pandas "
+                         "matches the index tuples by position, so for a mesh indexed in the other level order the values are NaN "
+                         "or belong to other nodes" % (fi.name, norm_text(b)[:90]), text="caller index alignment " + fi.name)
+    if n < 10:
+        raise AnalysisError("only %d mesh accessor methods found" % n)
+    ctx.holds("pylife.mesh", None, "%d mesh accessor methods: none re-indexes a fixed-level-order frame with the caller's index" % n)
 
 
 def _r5_mapping_coords(ctx):
